@@ -27,7 +27,81 @@ type FuncReport struct {
 }
 
 func (w *World) specialCall(fr *Frame, st *State, c *ssa.CallCommon, fn *ssa.Function, args []*Val, ins *ssa.Call) bool {
+	if fn == nil {
+		return false
+	}
+	switch fn.String() {
+	case "sort.Slice", "sort.SliceStable":
+		w.sortSliceCall(fr, st, fn.String(), args)
+		if ins != nil {
+			fr.vals[ins] = &Val{Typ: c.Signature().Results()}
+		}
+		return true
+	}
 	return false
+}
+
+// sortSliceCall applies the contract of sort.Slice(x, less). Its
+// precondition is that less orders the elements of the slice being sorted:
+// the verdict of less(i, j) must be a function of the two elements currently
+// at i and j (and must be asymmetric). It is checked by evaluating the
+// comparator's real body in two states in which the slice holds arbitrary
+// contents: whenever the elements at the compared positions agree, the
+// verdicts must agree. A comparator that indexes another slice fails this.
+func (w *World) sortSliceCall(fr *Frame, st *State, name string, args []*Val) {
+	w.callOrd["call:"+name]++
+	ord := w.callOrd["call:"+name]
+	x, less := args[0], args[1]
+	props := []string{}
+	if w.topContract != nil {
+		props = w.topContract.Props
+	}
+	if x.Dyn == nil || x.Dyn.Typ == nil || less.Fn == nil || less.Fn.Fn == nil || less.Fn.Fn.Blocks == nil {
+		o := w.oblige("call.pre", fmt.Sprintf("call.%s.%d.pre.orders-the-slice", name, ord), st.cond, tFalse, true, props)
+		o.Result = &SolverResult{Status: "undecided", Output: "sort.Slice: the slice or the comparator is not statically known"}
+		w.havocAll(st)
+		return
+	}
+	sl := x.Dyn
+	et := sl.Typ.Underlying().(*types.Slice).Elem()
+	es := w.sortOf(et)
+	key := w.elemsKey(es)
+	n := slen(sl.T)
+	evalLess := func(tag string) (Term, Term, Term, Term) {
+		s2 := st.clone()
+		contents := w.sc.fresh("sort.contents."+tag, arraySort(SInt, es))
+		E := w.hget(s2, key)
+		w.hset(s2, key, store(E, sarr(sl.T), contents))
+		i, j := w.sc.fresh("sort.i."+tag, SInt), w.sc.fresh("sort.j."+tag, SInt)
+		w.sc.assume(and(le(intLit(0), i), lt(i, n), le(intLit(0), j), lt(j, n)))
+		// element well-formedness (non-nil allocated pointers stay what they were: arbitrary permutation of valid elements)
+		if es == SInt {
+			w.sc.assume(and(lt(intLit(0), sel(contents, add(soff(sl.T), i))), le(sel(contents, add(soff(sl.T), i)), w.hget(st, allocKey)),
+				lt(intLit(0), sel(contents, add(soff(sl.T), j))), le(sel(contents, add(soff(sl.T), j)), w.hget(st, allocKey))))
+		}
+		w.muted++
+		r := w.inlineCall(fr, s2, less.Fn.Fn, []*Val{{T: i, Typ: types.Typ[types.Int]}, {T: j, Typ: types.Typ[types.Int]}}, less.Fn.Bindings)
+		w.muted--
+		return r.T, sel(contents, add(soff(sl.T), i)), sel(contents, add(soff(sl.T), j)), i
+	}
+	r1, a1, b1, _ := evalLess("a")
+	r2, a2, b2, _ := evalLess("b")
+	w.oblige("call.pre", fmt.Sprintf("call.%s.%d.pre.orders-the-slice", name, ord), st.cond,
+		implies(and(eq(a1, a2), eq(b1, b2)), eq(r1, r2)), true, props)
+	// asymmetry: evaluate less(j, i) on contents "a" is covered by the functional form: r(x,y) and r(y,x)
+	r3, a3, b3, _ := evalLess("c")
+	w.oblige("call.pre", fmt.Sprintf("call.%s.%d.pre.asymmetric", name, ord), st.cond,
+		implies(and(eq(a1, b3), eq(b1, a3)), not(and(r1, r3))), true, props)
+	// effect: the slice holds a permutation of its elements
+	E := w.hget(st, key)
+	perm := w.sc.fresh("sort.result", arraySort(SInt, es))
+	old := sel(E, sarr(sl.T))
+	fnm := sym(fmt.Sprintf("sortPerm!%d", len(w.pre)))
+	w.preAdd("sortperm:"+fnm, fmt.Sprintf("(declare-fun %s (Int) Int)", fnm))
+	w.sc.assume(implies(st.cond, Term{fmt.Sprintf("(forall ((sp! Int)) (! (=> (and (<= 0 sp!) (< sp! %s)) (and (<= 0 (%s sp!)) (< (%s sp!) %s) (= (select %s (+ %s sp!)) (select %s (+ %s (%s sp!)))))) :pattern ((%s sp!))))",
+		n.S, fnm, fnm, n.S, perm.S, soff(sl.T).S, old.S, soff(sl.T).S, fnm, fnm), SBool}))
+	w.hset(st, key, store(E, sarr(sl.T), perm))
+	w.assumption("sort.Slice: under its precondition (checked) the slice afterwards holds a permutation of its elements sorted by the comparator; sortedness is not used")
 }
 
 // verifyFunction generates the obligations of one function contract.
@@ -147,6 +221,19 @@ func verifyFunction(l *Loaded, specs *Specs, ct *Contract) (rep *FuncReport, w *
 	}
 	if ct.ModStated && !ct.ModAll {
 		w.frameObligations(fr, ct, exit, env)
+	}
+	if ct.Opts["maprange"] == "deterministic" {
+		n := 0
+		for _, o := range w.obls {
+			if o.Kind == "loop.det" {
+				n++
+			}
+		}
+		if n == 0 {
+			// no range over a map in the body: nothing can depend on the iteration order
+			w.oblige("loop.det", "maprange.none", tTrue, tTrue, true, ct.Props)
+			w.assumption("a function without a range over a map (and without calls that have one, other than trusted helpers) is independent of map iteration order")
+		}
 	}
 	// reachability of a normal return (vacuity guard)
 	o := w.oblige("vacuity", "reach.return", tTrue, tTrue, false, ct.Props)
@@ -342,7 +429,7 @@ func solveAll(w *World, obls []*Obligation, timeoutS, seed int) {
 					r = SolverResult{Status: "unsat", Solver: r.Solver + "+split", Ms: r.Ms + ms, All: r.All}
 				}
 			}
-			if o.Expect == "unsat" && r.Status != "unsat" && r.Status != "sat" && len(o.Values) > 0 {
+			if o.Expect == "unsat" && r.Status != "unsat" && r.Status != "sat" {
 				// candidate counterexample: drop the quantified assumptions
 				// (sound only as a source of inputs to replay on the real code)
 				var keep []string
@@ -400,7 +487,7 @@ func cmdVerify(args []string) {
 	}
 	var keys []string
 	for k, ct := range specs.Contracts {
-		if ct.Kind == "func" && ct.Pkg == pkgPath && (len(want) == 0 || want[ct.Name]) {
+		if ct.Kind == "func" && !ct.Trusted && ct.Pkg == pkgPath && (len(want) == 0 || want[ct.Name]) {
 			keys = append(keys, k)
 		}
 	}
